@@ -94,7 +94,10 @@ class Gen:
             if t == 1:
                 return [(0, "cfg = {")] + [(4, f'"{k}": {i},') for i, k in enumerate(ks)] + [(0, "}")]
             if t == 2:
-                return [(0, f'logger.info("{r.choice(WORDS)}")')]
+                # shapes the LoggerCallFilter accepts, and near misses (other object, other method, no call)
+                head = r.choice(["logger.info", "logger.info", "self.logger.warning", "log.debug ", "logging.error", "self.log.exception",
+                                 "loggerx.info", "logger.trace", "self.logs.info", "logger.log"])
+                return [(0, f'{head}("{r.choice(WORDS)}")')]
             if t == 3:
                 return [(0, "try:"), (4, f"{fn}({ks[0]})"), (0, "except ValueError as e:"), (4, f'raise RuntimeError("{ks[1]}") from e')]
             if t == 4:
